@@ -22,6 +22,7 @@ RULE = ('reference-encoded images of each format that has both reader '
         'Cases one reader rejects by raising are outside '
         'the property ("that both accept") and are counted separately. '
         'non-trivial = both readers accepted; distinct = digest of the spec.')
+RULE += (' Also: images whose header carries nz=0, readers called without a shape, a gridded decoy file with the species in another order read first.')
 ASSUMPTIONS = [
     'termination is decided on logical steps: more than 2,000,000 backward '
     'jumps inside the library for an image of at most a few kilobytes is '
